@@ -62,7 +62,7 @@ fn any_window() -> (LZEncoderData, [u8; WB], u32) {
 // C01-F / C13-B: fill_window from an arbitrary in-invariant window: accepts a prefix of the input, copies exactly that
 // prefix behind the old data, slides the window only by a multiple of 16 (position bits preserved) while keeping keep_size_before bytes of
 // history, and recomputes the look-ahead gate (read_limit) as write_pos - keep_size_after.
-//@ {"name":"c01f_window_fill_move","props":["C01","C13","C07"],"obligation":"C01-F","timeout":1500,"mem_gb":9,"functions":["lz::lz_encoder::LZEncoderData::fill_window","lz::lz_encoder::LZEncoderData::move_window","lz::lz_encoder::LZEncoderData::process_pending_bytes","lz::lz_encoder::LZEncoderData::move_pos"],"bounds":"160-byte window with arbitrary content; keep_size_before 1..=16, keep_size_after 4..=16 (symbolic); any read_pos/write_pos/read_limit/pending_size under the invariant; input 0..=8 arbitrary bytes; unwind 10","assumes":["window invariant winv()","match finder replaced by a position-only stub (PosOnlyMF) that advances read_pos like HC4::skip"],"stubs":["PosOnlyMF match finder"]}
+//@ {"name":"c01f_window_fill_move","props":["C01","C07","C13"],"obligation":"C01-F","timeout":1500,"mem_gb":9,"functions":["lz::lz_encoder::LZEncoderData::fill_window","lz::lz_encoder::LZEncoderData::move_window","lz::lz_encoder::LZEncoderData::process_pending_bytes","lz::lz_encoder::LZEncoderData::move_pos"],"bounds":"160-byte window with arbitrary content; keep_size_before 1..=16, keep_size_after 4..=16 (symbolic); any read_pos/write_pos/read_limit/pending_size under the invariant; input 0..=8 arbitrary bytes; unwind 10","assumes":["window invariant winv()","match finder replaced by a position-only stub (PosOnlyMF) that advances read_pos like HC4::skip"],"stubs":["PosOnlyMF match finder"]}
 #[kani::proof]
 #[kani::unwind(10)]
 fn c01f_window_fill_move() {
